@@ -5,6 +5,7 @@ package main
 
 import (
 	"bufio"
+	"math"
 	"crypto/ecdsa"
 	"crypto/sha256"
 	"encoding/hex"
@@ -373,6 +374,11 @@ func (w *World) NoteBody(idx int, bodyHash []byte) {
 // from the trace base when small, an order-preserving marker when huge.
 func (w *World) RelTS(ts int64) (v int, big bool) {
 	d := ts - w.tsBase
+	if w.tsBase > 0 && ts < math.MinInt64+w.tsBase {
+		d = math.MinInt64 // (the subtraction would wrap around to a huge positive value)
+	} else if w.tsBase < 0 && ts > math.MaxInt64+w.tsBase {
+		d = math.MaxInt64
+	}
 	const lim = 1 << 28
 	if d > -lim && d < lim {
 		return int(d), false
